@@ -208,6 +208,8 @@ type Options struct {
 	TTLPolicy func(ctx context.Context, ov fdo.Voucher, req uint32) (uint32, error)
 	// RvInfo for DI and replacement credentials.
 	RvInfo [][]protocol.RvInstruction
+	// RvInfo2, if set, is used for replacement credentials instead of RvInfo.
+	RvInfo2 [][]protocol.RvInstruction
 	// MaxDeviceServiceInfoSize if nonzero is what the owner announces in message 67.
 	MaxDeviceServiceInfoSize uint16
 	NoJournalLock            bool
@@ -324,8 +326,13 @@ func (w *World) buildServers() {
 		Vouchers:             w.OwnerStore,
 		OwnerKeys:            w.OwnerKeys,
 		VouchersForExtension: w.OwnerStore,
-		RvInfo:               func(context.Context, fdo.Voucher) ([][]protocol.RvInstruction, error) { return opt.RvInfo, nil },
-		ReuseCredential:      func(context.Context, fdo.Voucher) (bool, error) { return opt.Reuse, nil },
+		RvInfo: func(context.Context, fdo.Voucher) ([][]protocol.RvInstruction, error) {
+			if w.Opt.RvInfo2 != nil {
+				return w.Opt.RvInfo2, nil
+			}
+			return opt.RvInfo, nil
+		},
+		ReuseCredential:      func(context.Context, fdo.Voucher) (bool, error) { return w.Opt.Reuse, nil },
 	}
 	if opt.MaxDeviceServiceInfoSize != 0 {
 		w.TO2.MaxDeviceServiceInfoSize = func(context.Context, fdo.Voucher) (uint16, error) {
